@@ -320,3 +320,40 @@ def inv4Line (io : SetIO S) (debug : Bool) (root : String) (rv : Nat) (answers :
   ";;".intercalate (inv4Replay io (ans.length + 5) s req ans [])
 
 end Pubgrub.Diag
+
+namespace Pubgrub.Diag
+open Pubgrub Pubgrub.SolveDriver
+variable {S : Type} [VersionSet S Nat] [DecidableEq S]
+
+/-- candidate NonEmpty: no current or accumulated term is `Positive(∅)` -/
+def checkNonEmpty (ps : PartialSolution Pk S Nat Nat) : List String :=
+  let isEmptyPos (t : Term S) : Bool := match t with | .pos s => decide (s = (VersionSet.empty : S)) | .neg _ => false
+  ps.assignments.flatMap fun (p, pa) =>
+    (if isEmptyPos pa.inter.term then [s!"empty-term:{p}"] else []) ++
+    (pa.dated.flatMap fun dd => if isEmptyPos dd.accumulated then [s!"empty-accumulated:{p}"] else [])
+
+def inv5Replay (io : SetIO S) : (n : Nat) → St S → Rq S → List String → List String → List String
+  | 0, _, _, _, out => out
+  | n + 1, s, req, answers, out =>
+    match resultText io req with
+    | some _ => out
+    | none =>
+      match answers with
+      | [] => out
+      | a :: rest =>
+        match parseAnswer io a with
+        | none => out
+        | some ans =>
+          let (s', req') := Solver.step s ans
+          let fin := match s'.phase with | .finished => true | _ => false
+          let bad := if fin then [] else checkNonEmpty s'.st.ps
+          let out := if bad.isEmpty then out ++ ["ok"] else out ++ [",".intercalate bad ++ " @ " ++ psSnapshot io s'.st.ps]
+          inv5Replay io n s' req' rest out
+
+def inv5Line (io : SetIO S) (debug : Bool) (root : String) (rv : Nat) (answers : String) : String :=
+  let (s, req) := Solver.start (P := Pk) (S := S) (V := Nat) (M := String) (Pr := Nat) (E := String)
+    debug 1000000 root rv
+  let ans := if answers == "" then [] else answers.splitOn ";;"
+  ";;".intercalate (inv5Replay io (ans.length + 5) s req ans [])
+
+end Pubgrub.Diag
